@@ -1241,6 +1241,15 @@ struct Conn {
     group: Option<String>,
     group_epoch: u64,
     tag: &'static str,
+    /// GR / LLGR of the OPEN the session sent (flags, families) -- mirrored by the client when it establishes
+    open_gr: Option<(u8, Vec<u32>)>,
+    open_llgr: Vec<u32>,
+    /// GR or LLGR is in force for this session (both OPENs carried it for a common family)
+    gr_negotiated: bool,
+    n_bit: bool,
+    established: bool,
+    /// how the session was ended (for the clean-up counters / signatures)
+    end_kind: &'static str,
 }
 
 enum Adm {
@@ -2026,6 +2035,12 @@ impl<'a> World<'a> {
             group: None,
             group_epoch: 0,
             tag: "",
+            open_gr: None,
+            open_llgr: Vec::new(),
+            gr_negotiated: false,
+            n_bit: false,
+            established: false,
+            end_kind: "",
         });
         if skip_setup {
             // admission already violated; there is no configuration to compare with
@@ -2038,6 +2053,8 @@ impl<'a> World<'a> {
                 self.conns[id].open_read = true;
                 self.conns[id].open_hold = obs.open_hold;
                 self.conns[id].open_mp = obs.mp.iter().copied().collect();
+                self.conns[id].open_gr = obs.gr.as_ref().map(|(fl, _, f)| (*fl, f.iter().copied().collect()));
+                self.conns[id].open_llgr = obs.llgr.as_ref().map(|m| m.keys().copied().collect()).unwrap_or_default();
                 self.rep.count("open:read");
             }
             Rd::Msg(_) => {
@@ -2420,6 +2437,28 @@ impl<'a> World<'a> {
             .map(|f| packet::Capability::MultiProtocol(Family::new((*f >> 16) as u16, *f as u8)))
             .collect();
         caps.push(packet::Capability::FourOctetAsNumber(my_as));
+        // the remote end advertises GR / LLGR for the same families (restart / stale time 1 s), so
+        // that the helper side of the daemon is really in force when the session ends
+        let fam = |f: &u32| Family::new((*f >> 16) as u16, *f as u8);
+        if drive == Drive::Establish {
+            if let Some((fl, fams)) = self.conns[id].open_gr.clone() {
+                if !fams.is_empty() {
+                    let n = fl & 0x4 != 0 && id % 3 != 0;
+                    caps.push(packet::Capability::GracefulRestart {
+                        flags: if n { 0x4 } else { 0 },
+                        restart_time: 1,
+                        families: fams.iter().map(|f| (fam(f), 0x80)).collect(),
+                    });
+                    self.conns[id].gr_negotiated = true;
+                    self.conns[id].n_bit = n;
+                }
+            }
+            if !self.conns[id].open_llgr.is_empty() {
+                let v: Vec<(Family, u8, u32)> = self.conns[id].open_llgr.iter().map(|f| (fam(f), 0u8, 1u32)).collect();
+                caps.push(packet::Capability::LongLivedGracefulRestart(v));
+                self.conns[id].gr_negotiated = true;
+            }
+        }
         let mut out = BytesMut::new();
         let mut codec = bgp::PeerCodec::new();
         let open = bgp::Message::Open(bgp::Open {
@@ -2485,6 +2524,10 @@ impl<'a> World<'a> {
                         == crate::fsm::State::Established
                     {
                         self.rep.count("drive:established");
+                        self.conns[id].established = true;
+                        if self.conns[id].gr_negotiated {
+                            self.rep.count("drive:established-with-gr-or-llgr");
+                        }
                         break;
                     }
                     if t0.elapsed() > WATCHDOG {
@@ -2566,6 +2609,23 @@ impl<'a> World<'a> {
                 );
             }
         } else if !live {
+            // did this end start GR / LLGR helper mode?  (statement: the entry goes with the last
+            // connection, helper or not -- judged here; what happens when the timers run out is not)
+            let c = &self.conns[ended];
+            let helper = c.established
+                && c.gr_negotiated
+                && match c.end_kind {
+                    "tcp-reset" | "tcp-close" => true,
+                    "cease-notification" => c.n_bit || c.open_gr.is_none(),
+                    _ => false,
+                };
+            if c.established && c.gr_negotiated {
+                self.rep.count(&format!("cleanup:dynamic-checked:gr-negotiated:{}", if c.end_kind.is_empty() { "told-by-the-daemon" } else { c.end_kind }));
+            }
+            if helper {
+                self.rep.count("cleanup:dynamic-checked:after-gr-helper-start");
+            }
+            let shape = if helper { format!("{}/gr-helper-started", shape) } else { shape.to_string() };
             self.rep
                 .count(&format!("cleanup:dynamic-checked:{}", shape));
             self.rep.nontrivial(self.case_hash() ^ 0xc1ea);
@@ -2579,6 +2639,9 @@ impl<'a> World<'a> {
                     "a dynamic neighbour's entry is still in Global.peers after its last connection's task finished",
                     w,
                 );
+                // the left-over entry would be taken for a fresh dynamic neighbour by everything that
+                // follows: the history ends here
+                self.tainted = true;
             }
         } else {
             self.rep.count(if present {
@@ -2602,9 +2665,45 @@ impl<'a> World<'a> {
     }
 
     async fn op_disconnect(&mut self, i: usize) {
+        self.op_disconnect_how(i, 0).await;
+    }
+
+    /// how: 0 = RST, 1 = FIN, 2 = NOTIFICATION Cease/Administrative Shutdown then FIN,
+    /// 3 = NOTIFICATION Cease/Hard Reset then FIN (2 and 3 only on an Established session)
+    async fn op_disconnect_how(&mut self, i: usize, how: u8) {
+        use tokio::io::AsyncWriteExt as _;
         let addr = self.conns[i].addr;
-        self.log(format!("disconnect #{}", i));
+        let how = if self.conns[i].established { how } else { how.min(1) };
+        let kind = match how {
+            0 => "tcp-reset",
+            1 => "tcp-close",
+            2 => "cease-notification",
+            _ => "hard-reset-notification",
+        };
+        self.conns[i].end_kind = kind;
+        self.log(format!("disconnect #{} ({})", i, kind));
         self.rep.count("op:disconnect");
+        self.rep.count(&format!("end:{}", kind));
+        if how >= 2 {
+            let n = if how == 2 { packet::Notification::CeaseAdminShutdown } else { packet::Notification::CeaseHardReset };
+            let mut out = BytesMut::new();
+            if bgp::PeerCodec::new().encode_to(&bgp::Message::Notification(n), &mut out).is_ok() {
+                if let Some(c) = self.conns[i].client.as_mut() {
+                    let _ = c.write_all(&out).await;
+                }
+            }
+        }
+        if how >= 1 {
+            if let Some(c) = self.conns[i].client.as_mut() {
+                let _ = c.shutdown().await;
+            }
+            // the daemon reads the NOTIFICATION / EOF and ends the session; then our end goes too
+            if self.await_done(i).await {
+                self.conns[i].client = None;
+                self.check_cleanup(addr, i).await;
+            }
+            return;
+        }
         self.conns[i].client = None; // close (RST: linger 0)
         if self.await_done(i).await {
             self.check_cleanup(addr, i).await;
@@ -3206,8 +3305,11 @@ async fn run_scenario(
             w.op_connect(addr, role, drive, None, true).await;
         } else if k < 68 {
             if !live.is_empty() {
-                let i = *rng.pick(&live);
-                w.op_disconnect(i).await;
+                // sessions with GR / LLGR in force are ended more often, and in every way
+                let gr: Vec<usize> = live.iter().copied().filter(|i| w.conns[*i].established && w.conns[*i].gr_negotiated).collect();
+                let i = if !gr.is_empty() && rng.bool() { *rng.pick(&gr) } else { *rng.pick(&live) };
+                let how = *rng.pick(&[0u8, 0, 1, 1, 2, 2, 3]);
+                w.op_disconnect_how(i, how).await;
             }
         } else if k < 74 {
             let addr = if !statics.is_empty() && rng.chance(4, 5) {
